@@ -312,7 +312,25 @@ func (env *SpecEnv) mapIterOfLoop() *mapIter {
 			}
 		}
 	}
-	return nil
+	// a loop nested in a map range loop: visited() speaks about the innermost enclosing map range loop (the nested
+	// loop does not advance that iterator, so its visited set is the same at every iteration of the nested loop)
+	var best *Loop
+	var bestIt *mapIter
+	for _, l := range env.fr.loops {
+		if l == env.loop || !l.Blocks[env.loop.Header] {
+			continue
+		}
+		for _, ins := range l.Header.Instrs {
+			if nx, ok := ins.(*ssa.Next); ok {
+				if it := env.fr.iters[nx.Iter]; it != nil && !it.isStr {
+					if best == nil || len(l.Blocks) < len(best.Blocks) {
+						best, bestIt = l, it
+					}
+				}
+			}
+		}
+	}
+	return bestIt
 }
 
 func (env *SpecEnv) loopIndexCell() (int, bool) {
